@@ -387,6 +387,22 @@ func ShouldRespond(w Watcher, id string, request *discovery.DiscoveryRequest) (b
 	if request.ResponseNonce == "" || previousInfo == nil {
 		log.Debugf("ADS:%s: INIT/RECONNECT %s %s %s", stype, id, request.VersionInfo, request.ResponseNonce)
 		w.NewWatchedResource(request.TypeUrl, request.ResourceNames)
+		// The new watch may not produce a response (for example SDS for a secret that does not exist yet), and the
+		// client then keeps presenting the last nonce it has for this type on the stream: the one of the watch we
+		// are replacing, or, when that watch is gone because the client had unsubscribed, the one it presents now.
+		// Remember it, otherwise every later change of this subscription would be dropped as an expired nonce.
+		lastNonce := request.ResponseNonce
+		if previousInfo != nil {
+			lastNonce = previousInfo.NonceSent
+		}
+		if lastNonce != "" {
+			w.UpdateWatchedResource(request.TypeUrl, func(wr *WatchedResource) *WatchedResource {
+				if wr != nil {
+					wr.NonceSent = lastNonce
+				}
+				return wr
+			})
+		}
 		return true, emptyResourceDelta
 	}
 
